@@ -155,6 +155,27 @@ def discharge(ob, both=False, use_cvc5=True):
         r, dt, model, reason2 = run_z3(ob)
         ob.time += dt
         if r == "unknown":
+            # last resort: fewer hypotheses.  Dropping hypotheses is sound for proving (unsat of a subset implies unsat of
+            # the whole); it removes quantified facts about earlier program points that only make the solver diverge.
+            goal_last = ob.hyps[-1] if isinstance(ob, TextOb) else None
+            hy = ob.hyps[:-1] if isinstance(ob, TextOb) else ob.hyps
+            for k in (60, 30, 15, 8):
+                if k >= len(hy):
+                    continue
+                sub = hy[-k:]
+                s_ = z3.Solver()
+                s_.set("timeout", 2500)
+                s_.add(sub)
+                s_.add(goal_last if goal_last is not None else z3.Not(ob.goal))
+                t_ = time.time()
+                try:
+                    rr = s_.check()
+                except z3.Z3Exception:
+                    rr = z3.unknown
+                ob.time += time.time() - t_
+                if rr == z3.unsat:
+                    ob.verdict, ob.backend = "discharged", f"z3-last-{k}-hypotheses"
+                    return ob
             ob.verdict, ob.reason = "unknown", f"{reason}; z3 long: {reason2}"
             return ob
     if r == "unsat":
